@@ -147,7 +147,14 @@ impl History {
 }
 
 /// The unique value written by entry `sub` of operation `op_index`.
+/// `vlen == EMPTY_VALUE` stands for the zero-length value (every other value carries the unique
+/// "<op>.<sub>:" prefix of at least eight bytes, so lengths 1..7 are otherwise unused).
+pub const EMPTY_VALUE: usize = 1;
+
 pub fn value_for(op_index: usize, sub: usize, vlen: usize) -> Vec<u8> {
+    if vlen == EMPTY_VALUE {
+        return Vec::new();
+    }
     let mut v = format!("{op_index:05}.{sub}:").into_bytes();
     let mut j = 0usize;
     while v.len() < vlen {
@@ -422,13 +429,13 @@ fn gen_prog(rng: &mut Rng, keys: &[Vec<u8>], max_len: u64) -> Vec<Cur> {
 fn gen_vlen(rng: &mut Rng, big_values: bool) -> usize {
     if big_values {
         match rng.below(10) {
-            0 => 0,
+            0 => *rng.pick(&[0usize, EMPTY_VALUE]),
             1 | 2 => rng.range(8, 40) as usize,
             _ => rng.range(300, 900) as usize,
         }
     } else {
         match rng.below(10) {
-            0 => 0,
+            0 => *rng.pick(&[0usize, EMPTY_VALUE]),
             1..=6 => rng.range(8, 40) as usize,
             _ => rng.range(100, 900) as usize,
         }
